@@ -18,6 +18,8 @@ UFmtDemands(e) ==
     <<"C05.fmturn",  e.fu = urn>>,
     <<"C05.string",  e.str = txt>>,
     <<"C05.mtext",   e.mt = txt>>,
+    <<"C05.stable",  e.mt2 = txt /\ e.str2 = txt>>,
+    <<"C05.held",    e.held = txt /\ e.heldf = txt>>,
     <<"C05.verb_s",  e.vs = txt>>,
     <<"C05.verb_u",  e.vu = urn>>,
     <<"C16.urn",     e.urn = urn>>,
